@@ -291,6 +291,91 @@ def _ppo(rep, sess, tier, seed):
                          extra_hyps=[((r_k > 1 + clip) & (adv[k] > 0)) | ((r_k < 1 - clip) & (adv[k] < 0))])
 
 
+def _actor_gradients(rep, sess, tier, seed):
+    """Deterministic actor objectives: the gradient w.r.t. the ACTOR's parameters is the gradient of the documented
+    formula -mean Q(o, pi(o)) with the action flowing through every path into the critic (embeddings included).  A loss
+    can have the right value and still cut part of that path (stop_gradient): values alone do not see it.  Real loss
+    and reference formula are differentiated side by side in one traced function; first for all parameter values
+    (symbolic state), then - if that is not settled - for seeded parameters (decidable, replayable)."""
+    from rl_blox.algorithm import mrq, td7
+    from rl_blox.blox import losses
+    B = 2
+    rng = np.random.default_rng(seed)
+
+    def dpg(s_):
+        mods = (zoo.mlp(D + A, 1, (2,), s_), zoo.tanh_policy(D, A, (2,), s_ + 3))
+
+        def real(m, obs, pol):
+            return losses.deterministic_policy_gradient_loss(m[0], obs, pol)
+
+        def ref(m, obs, pol):
+            return -jnp.mean(m[0](jnp.concatenate((obs, pol(obs)), axis=-1)))
+        return mods, 1, real, ref, (f32(rng.normal(size=(B, D))),)
+
+    def td7_sale(s_):
+        pol = zoo.sale_policy(D, A, 2, s_)
+        mods = (pol.embedding, zoo.sale_critic(D, A, 2, s_ + 4), pol.actor)
+
+        def real(m, obs, actor):
+            return td7.deterministic_policy_gradient_loss_sale(m[0], m[1], obs, actor)
+
+        def ref(m, obs, actor):
+            emb, critic = m[0], m[1]
+            zs = emb.state_embedding(obs)
+            act = actor(obs, zs)
+            zsa = emb.state_action_embedding(jnp.concatenate((zs, act), axis=-1))
+            # pi(o) evaluated a second time for the critic's raw input (same value; keeps the sum structure of the
+            # gradient comparable term by term for the solver)
+            oa = jnp.concatenate((obs, actor(obs, zs)), axis=-1)
+            return -jnp.mean(0.5 * (critic.q1(oa, zs=zs, zsa=zsa) + critic.q2(oa, zs=zs, zsa=zsa)))
+        return mods, 2, real, ref, (f32(rng.normal(size=(B, D))),)
+
+    def mrq_pol(s_):
+        pwe = zoo.encoder_policy(D, A, s_)
+        mods = (pwe.policy, zoo.mrq_q(s_), pwe.encoder)
+
+        def real(m, zs, pol):
+            return mrq.mrq_policy_loss(pol, m[1], m[2], zs, 0.01)[0]
+
+        def ref(m, zs, pol):
+            raw = pol.policy_net(zs)
+            zsa = m[2].encode_zsa(zs, pol.scale_output(raw))
+            q = m[1]
+            return -jnp.mean(jnp.minimum(q.q1(zsa), q.q2(zsa))) + 0.01 * jnp.mean(raw * raw)
+        return mods, 0, real, ref, (f32(rng.normal(size=(B, zoo.W))),)
+
+    for name, mk in (("deterministic_policy_gradient_loss", dpg), ("deterministic_policy_gradient_loss_sale", td7_sale), ("mrq_policy_loss", mrq_pol)):
+        settled = False
+        for mode in ("all-parameters", "seeded-parameters", "seeded-parameters-and-observations", "seeded-parameters-and-observations#2"):
+            mods, ai, real, ref, data = mk(seed + {"all-parameters": 0, "seeded-parameters": 1, "seeded-parameters-and-observations": 1}.get(mode, 2))
+            gdef, st = nnx.split(mods)
+
+            def f(state, x, gdef=gdef, ai=ai, real=real, ref=ref):
+                m = list(nnx.merge(gdef, state))
+                g_real = nnx.grad(lambda *mm: real(list(mm), x, mm[ai]), argnums=ai)(*m)
+                g_ref = nnx.grad(lambda *mm: ref(list(mm), x, mm[ai]), argnums=ai)(*m)
+                return jax.tree_util.tree_leaves(g_real), jax.tree_util.tree_leaves(g_ref)
+            ex = (st,) + tuple(data)
+            kw = {}
+            if mode == "seeded-parameters":
+                kw = dict(overrides=lambda ins, st=st, data=data: (st,) + tuple(ins[1:]), numeric_consts=True)
+            elif mode.startswith("seeded-parameters-and-observations"):
+                # last resort (ground obligation): decides the seeded point only - recorded as such
+                kw = dict(overrides=lambda ins, st=st, data=data: (st,) + tuple(data), numeric_consts=True)
+            e = E1(rep, sess, f, ex, f"{name}:actor-gradient[{mode}]", validate_sets=[ex] if mode == "all-parameters" else None, soft=True, **kw)
+            r = e.obligation("gradient-wrt-actor=gradient-of-the-documented-formula",
+                             lambda i, o: [S.close(S.SA(a), S.SA(b)) for a, b in zip(o[0], o[1])],
+                             site=f"{name}:actor-gradient-is-the-gradient-of-the-documented-objective", timeout_s=10 if mode != "all-parameters" else 20)
+            if r is True or r is False:
+                rep.extra.setdefault("actor_gradient_settled_at", {})[name] = mode
+                settled = True
+                if r is False or not mode.endswith("observations"):
+                    break
+        if not settled:
+            for site_, why in e.pending:
+                rep.inconclusive_(site_, why)
+
+
 def _ppo_update(rep, sess, tier, seed):
     """update_ppo over several epochs: every epoch optimises the clipped surrogate against the log-probabilities of the
     ROLLOUT policy (those before the first step) - otherwise the ratio restarts at 1 each epoch and the clip, hence
@@ -453,6 +538,7 @@ def main(tier, seed):
         c.B_list = (2,) if tier == "quick" else (2, 3)
         run_case(rep, sess, c, tier, seed)
     _pg_gradients(rep, sess, tier, seed)
+    _actor_gradients(rep, sess, tier, seed)
     _ppo(rep, sess, tier, seed)
     _ppo_update(rep, sess, tier, seed)
     _temperature(rep, sess, tier, seed)
